@@ -140,7 +140,7 @@ def trx_str(t):
 	return d
 
 
-STALE_RE = re.compile(r"^\((?P<trx>[^)]*)\) Stale TRXD message \(fn=(?P<tick>\d+)\): (?P<desc>.*)$")
+STALE_RE = re.compile(r"\bstale\b", re.I)
 
 
 def check_race(history, cfg):
@@ -212,12 +212,18 @@ def check_race(history, cfg):
 					continue
 				emissions.append((cur_tick, T.i, d, idx))
 		elif kind == "log":
-			m = STALE_RE.match(kw["msg"])
-			if m:
-				fnm = re.search(r"(?:^| )fn=(\d+)", m.group("desc"))
-				tnm = re.search(r"(?:^| )tn=(\d+)", m.group("desc"))
-				stales.append((cur_tick, labels.get(m.group("trx")), int(fnm.group(1)) if fnm else None,
-					int(tnm.group(1)) if tnm else None, idx))
+			msg = kw["msg"]
+			if STALE_RE.search(msg):
+				# which transceiver and which burst the report names, without relying on the exact
+				# wording: the transceiver's printed name, the frame number as a whole number, tn=<n>
+				who = None
+				for lab in sorted(labels, key=len, reverse=True):
+					if lab in msg:
+						who = labels[lab]
+						break
+				nums = {int(x) for x in re.findall(r"(?<!\d)\d+(?!\d)", msg)}
+				tnm = re.search(r"\btn=(\d+)", msg)
+				stales.append((cur_tick, who, nums, int(tnm.group(1)) if tnm else None, idx))
 		elif kind == "thread-death":
 			bad("C03.thread-death", thread=kw["thread"], exc=kw["exc"], msg=kw["msg"], where=kw["where"])
 	# every command read by the socket thread is answered before it reads the next datagram
@@ -315,8 +321,9 @@ def check_race(history, cfg):
 		b["st"] = []
 	# 2. stale reports name (transceiver, fn, tn) only: hand each to a burst of that group that
 	#    has no outcome yet, preferring one for which a stale report in that tick is allowed
-	for k, (tick_no, ti, fn, tn, idx) in enumerate(stales):
-		group = [b for b in bursts if b["S"] == ti and b["fn"] == fn and b["tn"] == tn and idx > b["a0"] and not b["em"] and not b["st"]]
+	for k, (tick_no, ti, nums, tn, idx) in enumerate(stales):
+		group = [b for b in bursts if (ti is None or b["S"] == ti) and b["fn"] in nums and (tn is None or b["tn"] == tn)
+			and idx > b["a0"] and not b["em"] and not b["st"]]
 		group.sort(key=lambda b: (("stale", tick_no) not in b["allowed"], b["n"]))
 		if group:
 			group[0]["st"].append((k, tick_no))
@@ -378,7 +385,7 @@ def check_race(history, cfg):
 			continue
 		bad("C03.spurious-emission", sniffer=model.trx[ti].label(), fn=d["fn"], tn=d["tn"],
 			tick_fn=ticks[tick_no][2] if tick_no is not None else None)
-	for k, (tick_no, ti, fn, tn, idx) in enumerate(stales):
-		if k not in used_st:
-			bad("C03.spurious-stale-report", fn=fn, tn=tn)
+	for k, (tick_no, ti, nums, tn, idx) in enumerate(stales):
+		if k not in used_st and not any(n >= HYPER for n in nums):
+			bad("C03.spurious-stale-report", numbers=sorted(nums)[:6], tn=tn)
 	return viols, stats
